@@ -209,6 +209,9 @@ func GenWorldCfg(g *Rng, opt GenOpts) (World, map[string]any) {
 	// every architecture of the documented GOARCH table
 	cfg["arch"] = Pick(g, []string{"amd64", "386", "arm64", "arm5", "arm6", "arm7", "all", "mips", "mipsle", "mips64le", "ppc64le", "s390", "amd64", "arm6"})
 	cfg["version"] = Pick(g, []string{"1.2.3", "v2.0.1", "0.9.0-beta.1", "3.1.4+git5", "1.0", "2024.01.15"})
+	if x.feat("version_schema_none", 0.1) {
+		cfg["version_schema"] = "none"
+	}
 	if x.feat("version_parts", 0.4) {
 		if g.Bool(0.5) {
 			cfg["release"] = Pick(g, []string{"1", "2", "3.el9"})
@@ -735,6 +738,30 @@ func GenWorldCfg(g *Rng, opt GenOpts) (World, map[string]any) {
 		w.Signed = []string{"deb", "rpm", "apk"}
 	}
 
+	if x.feat("format_arch_override", 0.25) {
+		// the documented per-format architecture overrides (used verbatim)
+		for _, fa := range [][2]string{{"deb", "armel"}, {"rpm", "ia64"}, {"apk", "armhf"}, {"archlinux", "pentium4"}, {"ipk", "mips_24kc"}} {
+			if g.Bool(0.5) {
+				switch fa[0] {
+				case "deb":
+					debBlock["arch"] = fa[1]
+				case "rpm":
+					rpmBlock["arch"] = fa[1]
+				case "apk":
+					apkBlock["arch"] = fa[1]
+				case "archlinux":
+					archBlock["arch"] = fa[1]
+				case "ipk":
+					ipkBlock["arch"] = fa[1]
+				}
+			}
+		}
+	}
+	if g.Bool(0.15) {
+		ipkBlock["essential"] = true
+		ipkBlock["auto_installed"] = true
+		ipkBlock["predepends"] = []any{"busybox"}
+	}
 	for _, f := range x.feats {
 		if f == "rpm_compression_invalid" {
 			rpmBlock["compression"] = "brotli"
